@@ -18,7 +18,8 @@ from harness.core import run_tlc, require_clean, MachineryError
 from harness import tracecheck
 
 LEN = 64
-PAIRS = {'AA': ('A', 'A'), 'AB': ('A', 'B'), 'BB': ('B', 'B')}
+NA, NB = 'sB', 'a'           # type names: not in alphabetical order, different lengths
+PAIRS = {'AA': (NA, NA), 'AB': (NA, NB), 'BB': (NB, NB)}
 
 
 def mc_module(diam_pairs):
@@ -44,19 +45,19 @@ def build(c, dr, rng, label):
     """the real System of a configuration; everything the spec leaves open (densities, omegas, potential
     parameters) is drawn from the seeded generator - the statement quantifies over all of it"""
     import pyPRISM
-    s = pyPRISM.System(['A', 'B'], kT=float(c['kT']))
+    s = pyPRISM.System([NA, NB], kT=float(c['kT']))
     s.domain = pyPRISM.Domain(length=LEN, dr=dr)
     half = dr / 2.0
     if rng.random() < 0.5:
         # a size sweep on a re-used System: both diameters first get a common value, then their own
-        s.diameter[['A', 'B']] = 0.25 if rng.random() < 0.5 else 2.0
-        order = ['B', 'A'] if rng.random() < 0.5 else ['A', 'B']
+        s.diameter[[NA, NB]] = 0.25 if rng.random() < 0.5 else 2.0
+        order = [NB, NA] if rng.random() < 0.5 else [NA, NB]
     else:
-        order = ['A', 'B']
+        order = [NA, NB]
     for t in order:
-        s.diameter[t] = c['dia'][0 if t == 'A' else 1] * half
-    s.density['A'] = float(rng.uniform(0.02, 0.5))
-    s.density['B'] = float(rng.uniform(0.02, 0.5))
+        s.diameter[t] = c['dia'][0 if t == NA else 1] * half
+    s.density[NA] = float(rng.uniform(0.02, 0.5))
+    s.density[NB] = float(rng.uniform(0.02, 0.5))
     for name, (a, b) in PAIRS.items():
         p = c['pairs'][name]
         k = p['pot']
@@ -78,23 +79,23 @@ def build(c, dr, rng, label):
                                'MS': pyPRISM.closure.MartynovSarkisov}[p['clos']](apply_hard_core=p['flag'])
     shape = int(rng.integers(0, 4))
     if shape == 0:
-        s.omega['A', 'A'] = pyPRISM.omega.SingleSite()
-        s.omega['B', 'B'] = pyPRISM.omega.SingleSite()
-        s.omega['A', 'B'] = pyPRISM.omega.NoIntra()
+        s.omega[NA, NA] = pyPRISM.omega.SingleSite()
+        s.omega[NB, NB] = pyPRISM.omega.SingleSite()
+        s.omega[NA, NB] = pyPRISM.omega.NoIntra()
     elif shape == 1:
-        s.omega['A', 'A'] = pyPRISM.omega.Gaussian(sigma=1.0, length=int(rng.integers(2, 40)))
-        s.omega['B', 'B'] = pyPRISM.omega.SingleSite()
-        s.omega['A', 'B'] = pyPRISM.omega.NoIntra()
+        s.omega[NA, NA] = pyPRISM.omega.Gaussian(sigma=1.0, length=int(rng.integers(2, 40)))
+        s.omega[NB, NB] = pyPRISM.omega.SingleSite()
+        s.omega[NA, NB] = pyPRISM.omega.NoIntra()
     elif shape == 2:
-        s.omega['A', 'A'] = pyPRISM.omega.FreelyJointedChain(length=int(rng.integers(2, 20)), l=1.0)
-        s.omega['B', 'B'] = pyPRISM.omega.GaussianRing(sigma=1.0, length=int(rng.integers(3, 30)))
-        s.omega['A', 'B'] = pyPRISM.omega.NoIntra()
+        s.omega[NA, NA] = pyPRISM.omega.FreelyJointedChain(length=int(rng.integers(2, 20)), l=1.0)
+        s.omega[NB, NB] = pyPRISM.omega.GaussianRing(sigma=1.0, length=int(rng.integers(3, 30)))
+        s.omega[NA, NB] = pyPRISM.omega.NoIntra()
     else:                       # a copolymer: intra-molecular cross correlation present
         k = s.domain.k
         E = np.exp(-k * k / 6.0)
-        s.omega['A', 'A'] = pyPRISM.omega.FromArray(1.0 + E)
-        s.omega['B', 'B'] = pyPRISM.omega.FromArray(1.0 + E)
-        s.omega['A', 'B'] = pyPRISM.omega.FromArray(0.5 * (E + E * E))
+        s.omega[NA, NA] = pyPRISM.omega.FromArray(1.0 + E)
+        s.omega[NB, NB] = pyPRISM.omega.FromArray(1.0 + E)
+        s.omega[NA, NB] = pyPRISM.omega.FromArray(0.5 * (E + E * E))
     return s
 
 
@@ -171,7 +172,7 @@ def check_solved(ctx, c, label, dr, rng, fails):
     g = pyPRISM.calculate.pair_correlation(P)
     r = np.asarray(P.sys.domain.r, dtype=float)
     fun = np.asarray(res.fun, dtype=float).reshape(-1, 2, 2)
-    T = {'A': 0, 'B': 1}
+    T = {NA: 0, NB: 1}
     for name, (a, b) in PAIRS.items():
         if not label['hard'][name]:
             continue
